@@ -61,7 +61,7 @@ def tail_combo(rng):
     sep = rng.choice(["-", "-", "", ".", "_"])
     if r < 0.31:
         # ESCAPED brackets (literal text) inside an optional group: `[ \[TAG\]]`, `[-\[TAG[NUM]\]]`
-        return rng.choice(["[%s\\[TAG\\]]", "[%s\\[TAG[NUM]\\]]", "[%s\\[TAG\\]NUM]"]) % (sep or " ")
+        return rng.choice(["[%s\\[TAG\\]]", "[%s\\[TAG[NUM]\\]]", "[%s\\[TAG\\]NUM]"]) % (sep or "-")     # (no blank: version patterns with blanks are refused by the config reader)
     if r < 0.45:
         return "[%sTAG]" % sep
     if r < 0.6:
